@@ -48,6 +48,13 @@ def gen_switch_device(rng):
         k = rng.randint(0, n)  # arbitrary initial configuration, may violate the rule
         v = {"kind": "Switch", "name": G._name(rng, "V", used_v), "label": None, "state": "Ok", "perm": "rw", "timeout": 0,
              "enabled": True, "elements": els, "rule": rule, "default_on": rng.sample(names, k)}
+        if k and rng.random() < 0.35:
+            # the initial selection declared on the switches themselves (Switch(..., default="On")) instead of through default_on
+            for e in els.values():
+                if e["name"] in v["default_on"]:
+                    e["default"] = "On"
+            v["default_on"] = None
+            v["declared_on_elements"] = True
         vectors[f"v{i}"] = v
     return {"name": "SW", "name_via": "class", "levels": [{"groups": {"g0": {"name": "MAIN", "enabled": True, "vectors": vectors}}}]}
 
@@ -238,7 +245,7 @@ def execute(scen):
         initial_ok = dict(pre_ok)
         # the configuration the definition declares (default_on) satisfies the rule <=> the driver starts in a state that does
         for vn, vs_ in vspecs.items():
-            declared = ["On" if (vs_["default_on"] and e["name"] in vs_["default_on"]) else "Off" for e in vs_["elements"].values()]
+            declared = ["On" if ((vs_["default_on"] and e["name"] in vs_["default_on"]) or e.get("default") == "On") else "Off" for e in vs_["elements"].values()]
             if rule_ok(vs_["rule"], declared) and not initial_ok[vn]:
                 viol.append({"clause": "C09.oneof" if vs_["rule"] == "OneOfMany" else "C09.atmost",
                              "detail": f"{vn} ({vs_['rule']}) is declared with default_on={vs_['default_on']!r} over switches {[e['name'] for e in vs_['elements'].values()]} "
